@@ -79,10 +79,17 @@ impl DGram {
         s
     }
     pub fn render_lexer(&self) -> String {
-        let mut s = String::from("%%\n");
+        // grammars with an even number of tokens get a lexer with start states: exclusive and
+        // inclusive ones, rules that belong to several of them, push / pop / replace operators
+        let states = self.tokens.len() % 2 == 0;
+        let mut s = String::from(if states { "%x SA SB SC\n%s SD SE\n%%\n" } else { "%%\n" });
         for (name, re) in &self.tokens {
             let n = name.trim_matches('\'').trim_matches('"');
             s.push_str(&format!("{re} \"{n}\"\n"));
+        }
+        if states {
+            s.push_str("#a <+SA>;\n#b <+SB>;\n<SA,SB,SC,SD,SE>#c <SC>;\n<SC,SA,SE,SB>#d <-SC>;\n<SB,SE,SA,SD,SC>#e ;\n<SE,SD,SC,SB,SA,INITIAL>#f <+SD>;\n");
+            s.push_str("<SA,SB,SC>[ \\t\\n]+ ;\n");
         }
         s.push_str("[ \\t\\n]+ ;\n");
         s
